@@ -121,3 +121,5 @@ def run(ctx, rep):
             rep.rules[R4]['failed'] += 1
             rep.discharged -= 1
             rep.finding(R4, f.key.replace('C06.', 'C10.R4/C06.', 1), f.where, f.construct, f.msg)
+    RL = rep.rule('C10.R5', 'a rule stops offering targets because of a world / constant limit only in states where a quit flag is put on the branch (limit predicates and guarded target producers folded below / at / above the limit): an open branch cut short by a limit is never limit-free')
+    common.limit_guards(ctx, rep, RL, 'C10.R5')
